@@ -383,10 +383,15 @@ where
     let mut evs: Vec<CallOf<O>> = Vec::new();
     let mut invoked = 0;
     let finish_all = r.chance(1, 3);
+    // "stuck" threads (a client that crashed or whose reply got lost): their first operation takes effect at some moment
+    // but NEVER returns, while the other threads carry on for the rest of the history. An in-flight operation that has to
+    // be ordered early — before operations of other threads that would be legal without it — only arises this way.
+    let stuck: Vec<bool> = (0..nth).map(|_| nth >= 2 && r.chance(1, 4)).collect();
+    let stuck: Vec<bool> = if stuck.iter().all(|b| *b) { vec![false; nth] } else { stuck };
     let mut steps = 0;
     loop {
         steps += 1;
-        let busy = st.iter().any(|s| !matches!(s, St::Idle));
+        let busy = st.iter().enumerate().any(|(i, s)| !matches!(s, St::Idle) && !(stuck[i] && matches!(s, St::Applied(_))));
         if invoked == nops && (!busy || (!finish_all && r.chance(1, 4))) { break; }
         if steps > 200 { break; }
         let i = r.below(nth);
@@ -401,11 +406,13 @@ where
                 } else { St::Idle }
             }
             St::Pending(op) => St::Applied(obj.invoke(&op)),
+            St::Applied(ret) if stuck[i] => St::Applied(ret),
             St::Applied(ret) => { evs.push(Call::Ret(ids[i], ret)); St::Idle }
         };
     }
-    // perturb
+    // perturb (histories with stuck threads are perturbed less often: they are interesting when they stay consistent)
     let mut k = 0;
+    let (p_num, p_den) = if stuck.iter().any(|b| *b) { (1, 3) } else { (p_num, p_den) };
     while r.chance(p_num, p_den) && k < 3 && !evs.is_empty() {
         k += 1;
         let n = evs.len();
